@@ -244,3 +244,25 @@ func H_cookie_ops_between() {
 	verifAssert(ev2.renamedFrom == ev1.Name, "the Create of a move identifies the old name whatever API calls happened between its two halves")
 	verifReach("cookie-ops-between")
 }
+
+// C09: a path added under any spelling, then renamed away: the watch ends.
+func H_add_then_moved() {
+	verifKReset()
+	w := verifNewInotify(0)
+	verifK.addResolve = 0
+	arg := verifSpellings[verifChoose("spelling", len(verifSpellings))]
+	verifAssert(w.Add(arg) == nil, "Add")
+	wd := uint32(verifK.nextWd)
+	l := w.WatchList()
+	verifAssert(len(l) == 1, "one path listed")
+	ending := [...]uint32{unix.IN_MOVE_SELF, unix.IN_DELETE_SELF, unix.IN_IGNORED}[verifChoose("ending", 3)]
+	if ending != unix.IN_MOVE_SELF {
+		verifK.marks[0].state = kDying
+	}
+	_, ok := verifDeliver(w, wd, ending, 0)
+	verifAssert(ok, "reader keeps running")
+	verifAssert(len(w.WatchList()) == 0, "a watch ends when its path is renamed away or deleted, whatever spelling it was added under")
+	err := w.Remove(arg)
+	verifAssert(err != nil && errors.Is(err, ErrNonExistentWatch), "Remove on the ended watch reports ErrNonExistentWatch")
+	verifReach("add-then-moved")
+}
